@@ -52,7 +52,7 @@ void Normalizer::Declarative(SyntaxTree::Node& root) {
     return;
   }
   const auto newName = ProcessTupleDeclaration(root(0));
-  SubstituteTupleVariables(root(1), newName);
+  // Note: declared variables are not visible in the domain, which may reuse their names in a scope of its own
   SubstituteTupleVariables(root(2), newName);
 }
 
